@@ -855,12 +855,19 @@ def measure_dvariants():
     ps = odl.ProductSpace(odl.rn(2), 3, weighting=2.0)
     dv['ps_astype_keeps_w'] = ps.astype('float32').weighting.const == 2.0
     dv['ps_getitem_keeps_w'] = ps[0:2].weighting.const == 2.0
+    try:
+        odl.tensor_space((2, 3), dtype=bool).byaxis[0]
+        dv['byaxis_nonnum_ok'] = True
+    except ValueError:
+        dv['byaxis_nonnum_ok'] = False
     return dv
 
 
 def coq_dvariants(dv):
-    return ('{| dv_astype_num_keeps_w := %s; dv_ps_astype_keeps_w := %s; dv_ps_getitem_keeps_w := %s |}'
-            % (C.b(dv['astype_num_keeps_w']), C.b(dv['ps_astype_keeps_w']), C.b(dv['ps_getitem_keeps_w'])))
+    return ('{| dv_astype_num_keeps_w := %s; dv_ps_astype_keeps_w := %s; dv_ps_getitem_keeps_w := %s; '
+            'dv_byaxis_nonnum_ok := %s |}'
+            % (C.b(dv['astype_num_keeps_w']), C.b(dv['ps_astype_keeps_w']), C.b(dv['ps_getitem_keeps_w']),
+               C.b(dv['byaxis_nonnum_ok'])))
 
 
 def oz(x):
@@ -1430,7 +1437,14 @@ def probe_indexing(rng, tier, out):
             if not np.isscalar(arr):
                 ok = ok and sub.shape == arr.shape and sub.dtype == arr.dtype
                 w = oS.weighting if S[0] == 'tensor' else oS.tspace.weighting
-                okw = w_same(sub.space.weighting, w) if leaf_tsp(S)[1] != 'bool' else True
+                if leaf_tsp(S)[1] == 'bool':
+                    okw = True
+                elif isarrw:       # the weights of the selected entries
+                    sw = sub.space.weighting
+                    okw = (isinstance(sw, odl.space.weighting.ArrayWeighting) and sw.exponent == w.exponent
+                           and np.array_equal(np.asarray(sw.array), np.asarray(w.array)[idx]))
+                else:
+                    okw = w_same(sub.space.weighting, w)
             else:
                 okw = True
         except Exception:
@@ -1440,7 +1454,8 @@ def probe_indexing(rng, tier, out):
         out.append(C.Probe(ok, key, 'x[idx] has the entries, shape and dtype of x.asarray()[idx] (%s)' % S[0],
                            head + "sub = x[idx]; arr = np.asarray(x)[idx]\nok = np.array_equal(np.asarray(sub), arr)\n"))
         out.append(C.Probe(okw, key + '-weighting', 'x[idx].space keeps the (non-array) weighting',
-                           head + "sub = x[idx]\nok = np.isscalar(sub) or sub.space.weighting == (oS.weighting if %r == 'tensor' else oS.tspace.weighting)\n" % S[0]))
+                           head + "sub = x[idx]; w = (oS.weighting if %r == 'tensor' else oS.tspace.weighting)\n"
+                           "ok = np.isscalar(sub) or sub.space.weighting == w or np.array_equal(np.asarray(sub.space.weighting.array), np.asarray(w.array)[idx])\n" % S[0]))
         # byaxis: shape of the selection, same dtype and (non-array) weighting
         if S[0] == 'tensor':
             nd = len(shape)
